@@ -6,59 +6,19 @@ COMMON_TRUSTED = [
     "Go runtime/stdlib as used by the code under test",
 ]
 
-EXPECTED_SLOT_SITES = [
-    "pkg/filter/range.go:IsSlotInList:KeyToSlot",
-    "pkg/rdb/rdb_object.go:ExecCmd:hash",
-    "pkg/redis/checkpoint/bisync.go:initBisyncSlotTags:KeyToSlot",
-    "pkg/redis/client/cluster/cluster.go:GetSlot:hash",
-    "pkg/redis/client/cluster/cluster.go:getNodeByKey:GetSlot",
-    "pkg/redis/client/cluster/cluster.go:hash:Crc16",
-    "pkg/redis/client/cluster/cluster.go:hash:Crc16",
-    "pkg/redis/client/cluster/cluster.go:hash:Crc16",
-    "pkg/redis/client/cluster/multi.go:multiGet:hash",
-    "pkg/redis/client/cluster/multi.go:multiSet:hash",
-    "pkg/redis/client/cluster/txn_batcher.go:Put:hash",
-    "pkg/redis/client/cluster/txn_batcher.go:Put:hash",
-    "pkg/redis/slot.go:KeyToSlot:Crc16",
-    "pkg/redis/slot.go:KeyToSlot:Crc16",
-    "syncer/bisync.go:buildBisyncReplayUnitWithMode:KeyToSlot",
-    "syncer/bisync_rdb.go:buildBisyncRdbReplayUnit:KeyToSlot",
-    "syncer/syncer.go:pickSuffixDfs:KeyToSlot",
-]
 
-PROPS = {
-    "C11": {
-        "lean_modules": ["GunYu.Props.C11"],
-        "audit_namespaces": ["GunYu.Props.C11"],
-        "required_theorems": [
-            "GunYu.Props.C11.crc16Tab_eq_xmodem",
-            "GunYu.Props.C11.keyToSlot_eq_spec",
-            "GunYu.Props.C11.clusterHash_eq_spec",
-            "GunYu.Props.C11.keyToSlot_eq_clusterHash",
-        ],
-        "expected_facts": {"crc16tab_len": 256, "slot_call_sites": EXPECTED_SLOT_SITES},
-        "harness": [{"name": "C11", "pkg": "./pkg/redis/", "test": "TestVerifC11"}],
-        "rule": "keys: corpus, all strings of length<=5 (quick) / <=8 (thorough) over {'{','}','a',0xff}, brace-grammar "
-                "generator (0-4 braces in any arrangement, empty tags, random/non-UTF-8 filler), random bytes up to 300; "
-                "each key evaluated by redis.KeyToSlot, cluster.hash, cluster.GetSlot and compared with the Lean model "
-                "(keyToSlot, clusterHash, hashSlotSpec) and an independent bitwise oracle. "
-                "distinct_nontrivial = distinct keys containing at least one '{' and one '}'",
-        "trusted": ["Redis Cluster HASH_SLOT and CRC16/XMODEM as transcribed in Model/Slot.lean (hashTagSpec, crc16Spec); check value 0x31C3 proved"],
-        "assumptions": ["scanner models tied by correspondence (not regenerated); table regenerated from pkg/digest/crc16.go",
-                        "every slot-computing call site goes through KeyToSlot/hash (call-site list compared with expectation)"],
-    },
-}
+import importlib, os, glob, sys
+_here = os.path.dirname(os.path.abspath(__file__))
+sys.path.insert(0, os.path.join(_here, "p"))
 
-# properties not claimed (none are "genuinely not applicable"; entries here are
-# given a reason; properties simply not built yet get a default reason)
+PROPS = {}
+MANIFEST_TEXT = {}
+for _f in sorted(glob.glob(os.path.join(_here, "p", "C*.py"))):
+    _id = os.path.basename(_f)[:-3]
+    _m = importlib.import_module(_id)
+    PROPS[_id] = _m.PROP
+    MANIFEST_TEXT[_id] = _m.MANIFEST
+
+# properties not claimed, with the reason (none is "genuinely not applicable";
+# a property whose check is not built yet gets a default reason in mkmanifest)
 NOT_APPLICABLE = {}
-
-MANIFEST_TEXT = {
-    "C11": {
-        "text": "Lean theorems for ALL byte strings: table-driven CRC16 (table regenerated from pkg/digest/crc16.go each run) = bitwise CRC16/XMODEM; "
-                "the models of redis.KeyToSlot and cluster.hash both equal the HASH_SLOT specification. The scanner models are tied to the Go functions "
-                "by differential correspondence (exhaustive short brace strings + generators) and every slot-computing call site is listed and compared.",
-        "note": "trusted: Lean kernel (propext, Classical.choice, Quot.sound only), HASH_SLOT/XMODEM transcription, extractor, harness; scanner functions modelled by hand (correspondence), table regenerated",
-        "technique": "Lean 4 proof (induction, GF(2)-linearity, 256-case kernel decide over regenerated table) + differential correspondence",
-    },
-}
